@@ -150,7 +150,11 @@ claim("C05", "proof",
 
 claim("C02", "proof",
       "Translator tie: IntervalEvaluator::operator() (eval_interval.cpp) is re-read on every run into "
-      "Gen/IntervalDispatch_gen.v and proved equal to the model's dispatch (C02_dispatch_from_source).  "
+      "Gen/IntervalDispatch_gen.v and proved equal to the model's dispatch (C02_dispatch_from_source); EVERY operation of "
+      "the class Interval (interval.hpp: flag formulas, atan2 / mod / pow / nth_root / division case analyses, state, "
+      "constructors) is re-read statement by statement into Gen/IntervalOps_gen.v by translate/gen_interval.py and proved "
+      "equal to the model's operation for every number type and all operands (C02_interval_ops_from_source; 25 of 25 "
+      "single-token mutations of the header break a named lemma or the translator).  "
       "Coq model of every may-be-NaN flag formula and case split of interval.hpp (Boost's primitives abstracted as "
       "bounds functions assumed to enclose the exact image), soundness theorems over extended reals, composition over "
       "tapes and the EMPTY/FILLED classification corollary; tie: Interval::<op> on operand intervals aimed at the case "
@@ -281,9 +285,16 @@ claim("C14", "proof",
       "node, the counter always equals the number of references held (at every prefix of every interleaving), the node is "
       "freed at most once, exactly when everything was released, by the last decrement of the interleaving; the non-atomic "
       "variant (load, then store) and the 'decrement, then read again' destructor are each refuted by a concrete interleaving "
-      "(use-after-free / double free).  The absence of OTHER shared "
-      "mutable state (static singletons, lazily filled tables, per-call canonical maps) and 'every thread observes the "
-      "sequential result' are decided by the oracle: harness/threads.cpp under ThreadSanitizer, 2..16 threads copying, moving, "
+      "(use-after-free / double free).  OTHER shared state: translate/gen_statics.py "
+      "regenerates on every run the inventory of every object with static storage duration and every `mutable` member in "
+      "src/{tree,eval,oracle} and include/libfive/{tree,eval,oracle} (Gen/Statics_gen.v) and the kernel checks it against the "
+      "sharing policy of Conc/Statics.v (const / atomic / initialised exactly once and read-only afterwards / listed by name "
+      "with its reason: C14_static_state_disciplined); the init-once discipline (C++11 magic statics, std::call_once) is "
+      "modelled with two-step non-atomic accesses and proved race-free, never observed partially initialised, single-writer, "
+      "deadlock-free and 'same as alone' under ALL schedules of any number of threads (C14_init_once_race_free, "
+      "C14_init_once_same_as_alone), the unguarded check-then-fill refuted by concrete schedules.  What the syntactic inventory "
+      "cannot see (heap objects shared through pointers, per-call canonical maps) and 'every thread observes the "
+      "sequential result' on the real code are decided by the oracle: harness/threads.cpp under ThreadSanitizer, 2..16 threads copying, moving, "
       "destroying, printing, optimising, flattening, remapping, serialising shared DAGs and building evaluators from them, "
       "half of the scenarios cold (nothing initialised before the threads start), plus last-reference scenarios (threads released "
       "from a spin barrier together drop the last references of a shared sub-DAG; the live-node counter must return to its "
